@@ -1355,6 +1355,9 @@ class LangServer:
                 if ast_old is not None:
                     for key in ast_old.global_dict:
                         self.obj_tree.pop(key, None)
+                # Forget the file itself, otherwise it keeps answering
+                # documentSymbol and appears in references/rename results
+                self.workspace.pop(filepath, None)
             return
         did_change, err_str = self.update_workspace_file(
             filepath, read_file=True, allow_empty=did_open
